@@ -83,14 +83,26 @@ def same_pixels(a, b):
     return bool(np.array_equal(a, b))
 
 
-def random_array(mode, h, w, nprng, kind="mixed", negative=False, dirty=False):
+INF_KINDS = ("all", "some", "channel")
+
+
+def random_array(mode, h, w, nprng, kind="mixed", negative=False, dirty=False, inf=None):
     """Random content of ``mode`` with a mask pattern of the given ``kind``:
     'mixed' (a random 5-60 % of the pixels undefined), 'full' (none), 'allundef',
     'single' (one defined pixel), 'sparse' (~1 % defined), 'blocks' (undefined pixels come
     in aligned 2x2/4x4 blocks and rows), 'faint' (RGBA: alpha in 1..3; integer data: isolated
     values of magnitude <= 3, so that every 2x2 block mean truncates to zero).
     ``negative``: signed integer data may be negative.  ``dirty``: transparent RGBA pixels
-    keep random colour values.  RGB has no undefined pixels, whatever ``kind``."""
+    keep random colour values.  RGB has no undefined pixels, whatever ``kind``.
+    ``inf`` (floating-point modes only; ignored elsewhere): infinities are *defined* values (the
+    statement of C15 names NaN as the only undefined floating-point value), so the mask pattern
+    of ``kind`` is untouched and, among the defined pixels,
+      'all'      every one is +inf or -inf (every channel for F16x3): whole tiles / single pixels of
+                 infinity, no finite value anywhere;
+      'some'     about a fifth are +inf or -inf (F16x3: in every channel or in one channel only);
+      'channel'  F16x3: every one has exactly one infinite channel, the other two finite
+                 (scalar modes: same as 'all').
+    The extra random draws happen after all others, so arrays drawn without ``inf`` are unchanged."""
     dt, ch = DTYPES[mode]
     shape = (h, w) + ((ch,) if ch else ())
     if mode in COLOUR_MODES:
@@ -147,9 +159,28 @@ def random_array(mode, h, w, nprng, kind="mixed", negative=False, dirty=False):
             a[u, :3] = 0
     elif mode in FLOAT_MODES:
         a[u] = np.nan
+        if inf:
+            _put_infinities(a, ~u, nprng, inf)
     else:
         a[u] = 0
     return a
+
+
+def _put_infinities(a, defined, nprng, inf):
+    """Replace defined pixels of the float array ``a`` by infinities (see ``random_array``)."""
+    if inf not in INF_KINDS:
+        raise ValueError(inf)
+    h, w = a.shape[:2]
+    sign = np.where(nprng.random((h, w)) < 0.5, -np.inf, np.inf).astype(a.dtype)
+    pick = defined if inf in ("all", "channel") else (defined & (nprng.random((h, w)) < 0.2))
+    if a.ndim == 2:
+        a[pick] = sign[pick]
+        return
+    chan = nprng.integers(0, a.shape[2], (h, w))
+    whole = np.zeros((h, w), bool) if inf == "channel" else (np.ones((h, w), bool) if inf == "all" else nprng.random((h, w)) < 0.5)
+    for c in range(a.shape[2]):
+        sel = pick & (whole | (chan == c))
+        a[sel, c] = sign[sel]
 
 
 def read_tile_file(path, fmt):
